@@ -307,6 +307,10 @@ class ServerSet(object):
       try:
         new_nodes, removed_nodes = work
         new_members = self._zk_nodes_to_members(new_nodes)
+        # Only announce members that are not known yet: after the watched path
+        # was deleted and re-created the same node can be reported by more
+        # than one children watch.
+        new_members = [m for m in new_members if m.name not in self._members]
         self._members.update(((m.name, m) for m in new_members))
 
         self._log.debug("Raising notifications for %i members joining and %i members leaving."
